@@ -34,6 +34,7 @@ class Node(NodeBase):
     table = Dict(Str, Instance(NodeBase))
     group = Set(Instance(NodeBase))
     grid = List(List(Instance(NodeBase)))
+    shelf = Dict(Str, List(Instance(NodeBase)))
 
     def _lazy_default(self):
         w = CUR["world"]
@@ -110,7 +111,7 @@ NODE_CLASSES = {"Node": Node, "EqNode": EqNode, "ValuelessNode": ValuelessNode,
 
 class MNode:
     __slots__ = ("uid", "cls", "value", "label", "child", "lazy", "children", "table",
-                 "group", "grid", "extra", "has_extra", "eqkey", "extra_default", "tagged",
+                 "group", "grid", "shelf", "extra", "has_extra", "eqkey", "extra_default", "tagged",
                  "has_tagged")
 
     def __init__(self, uid, cls="Node"):
@@ -125,6 +126,7 @@ class MNode:
         self.table = UNSET
         self.group = UNSET
         self.grid = UNSET
+        self.shelf = UNSET
         self.extra = UNSET
         self.has_extra = False
         self.extra_default = None      # constant default object of the added trait
@@ -153,7 +155,8 @@ class MNode:
         return self.cls in ("Node", "PNode", "EqNode")
 
     def traits(self):
-        names = ["uid", "value", "label", "child", "lazy", "children", "table", "group", "grid"]
+        names = ["uid", "value", "label", "child", "lazy", "children", "table", "group", "grid",
+                 "shelf"]
         if self.cls == "ValuelessNode":
             names = ["uid", "label", "child", "children"]
         elif self.cls == "LooseNode":
@@ -185,7 +188,8 @@ class MSet(set):
 
 
 LINKS = ("child", "lazy", "extra")
-CONTAINERS = {"children": "list", "table": "dict", "group": "set", "grid": "list"}
+CONTAINERS = {"children": "list", "table": "dict", "group": "set", "grid": "list",
+              "shelf": "dict"}
 
 
 # ---------------------------------------------------------------------------
@@ -207,6 +211,7 @@ LINK_STEPS = [
     [("t", "table"), ("items", None)],
     [("t", "group"), ("items", None)],
     [("t", "grid"), ("items", None), ("items", None)],
+    [("t", "shelf"), ("items", None), ("items", None)],
 ]
 LEAVES = [
     [("t", "value")], [("t", "value")], [("t", "value")], [("t", "label")],
@@ -281,12 +286,14 @@ def render_obj(expr, typed_items=None):
                 args = dict(notify=notify, optional=(k == "opt"))
                 e = ex.trait(n, **args) if e is None else e.trait(n, **args)
                 prev_cont = CONTAINERS.get(n)
-                if n == "grid":
-                    prev_cont = "grid"
+                if n in ("grid", "shelf"):
+                    prev_cont = n
             elif k == "items":
                 kind = prev_cont
                 if kind == "grid":
                     fn, prev_cont = "list_items", "list"
+                elif kind == "shelf":
+                    fn, prev_cont = "dict_items", "list"
                 elif kind == "list":
                     fn, prev_cont = "list_items", None
                 elif kind == "dict":
@@ -410,6 +417,7 @@ OP_ATTR = {"set_child": "child", "set_lazy": "lazy", "read_lazy": "lazy",
            "set_children": "children", "children_same": "children", "list": "children",
            "set_table": "table", "dict": "table", "set_group": "group", "set": "group",
            "set_grid": "grid", "grid_inner": "grid", "grid_outer": "grid",
+           "set_shelf": "shelf", "shelf_inner": "shelf", "shelf_outer": "shelf",
            "set_extra": "extra", "add_trait": "extra", "read_extra": "extra", "read": None,
            "del_attr": None, "redefine": None, "add_tagged": "tagged"}
 
@@ -429,12 +437,14 @@ def inflight_keys(world, op):
         return set()
     attr = OP_ATTR[k] or op.get("name")
     m = world.mnodes[world.idx(op.get("o", 0))]
-    if k in ("list", "dict", "set", "grid_outer", "grid_inner"):
+    if k in ("list", "dict", "set", "grid_outer", "grid_inner", "shelf_outer", "shelf_inner"):
         v = m.get(attr) if attr in m.traits() else UNSET
         if not isinstance(v, (MList, MDict, MSet)):
             return {("t", id(m), attr)}       # default about to be materialised
         if k == "grid_inner":
             return {("c", id(v[op["row"] % len(v)]))} if v else set()
+        if k == "shelf_inner":
+            return {("c", id(v[sorted(v)[op["row"] % len(v)]]))} if v else set()
         return {("c", id(v))}
     keys = {("t", id(m), attr)}
     if k in ("add_trait", "add_tagged"):
@@ -526,6 +536,9 @@ class World:
                 c.group = MSet(new[x.uid] for x in m.group)
             if m.grid is not UNSET:
                 c.grid = MList(MList(new[x.uid] for x in row) for row in m.grid)
+            if m.shelf is not UNSET:
+                c.shelf = MDict((a, MList(new[x.uid] for x in row))
+                                for a, row in m.shelf.items())
         w.mnodes = [new[m.uid] for m in self.mnodes]
         w.nodes = [None] * len(w.mnodes)
         w.by_uid = {uid: [None, c] for uid, c in new.items()}
@@ -896,7 +909,7 @@ class World:
         oldm = m.get(name)
         if oldm is UNSET:
             return []
-        empty = {"children": MList, "table": MDict, "group": MSet, "grid": MList}
+        empty = {"children": MList, "table": MDict, "group": MSet, "grid": MList, "shelf": MDict}
         if not self.sut_on:
             setattr(m, name, UNSET)
             return [Change("trait", mobj=m, name=name, changed=False)]
@@ -965,6 +978,13 @@ class World:
             op, step, "grid", None,
             lambda: [[self.node(u) for u in row] for row in rows],
             lambda: MList(MList(self.model(u) for u in row) for row in rows))
+
+    def op_set_shelf(self, op, step):
+        rows = [(key, self._uids(row)) for key, row in op["pairs"]]
+        return self._assign_container(
+            op, step, "shelf", None,
+            lambda: {key: [self.node(u) for u in row] for key, row in rows},
+            lambda: MDict((key, MList(self.model(u) for u in row)) for key, row in rows))
 
     # container mutations ---------------------------------------------------------
     def _mutate(self, op, step, name, ckind, get_sut, get_model, inner_op):
@@ -1134,6 +1154,75 @@ class World:
                        changed=self._cont_differs(before, after), before=before, after=after,
                        ckind="list")]
 
+    def op_shelf_inner(self, op, step):
+        """A list mutation of one of the lists stored in ``shelf`` (the k-th key)."""
+        def key_of(d):
+            return sorted(d)[op["row"] % len(d)]
+
+        def get_model(m):
+            d = self.m_container(m, "shelf")
+            if not d:
+                return None
+            return d[key_of(d)]
+
+        def get_sut(n):
+            d = n.shelf
+            if not d:
+                return None
+            return d[key_of(d)]
+        return self._mutate(op, step, "shelf", "list", get_sut, get_model, op["op"])
+
+    def op_shelf_outer(self, op, step):
+        """Dict mutation of ``shelf``: values are given as lists of refs (the
+        dict stores its own list object for each)."""
+        n, m = self._target(op)
+        if "shelf" not in m.traits():
+            return []
+        md = self.m_container(m, "shelf")
+        d = None
+        if self.sut_on:
+            d = self._do(step, "reading shelf", getattr, n, "shelf")
+        before = dict(md)
+        kind = op["how"]
+        key = op.get("key", "a")
+        uids = self._uids(op.get("row_vs", ()))
+        if kind == "setitem":
+            md[key] = MList(self.model(u) for u in uids)
+            if self.sut_on:
+                self._do(step, "shelf[%r] = row" % key, d.__setitem__, key,
+                         [self.node(u) for u in uids])
+        elif kind == "update":
+            md[key] = MList(self.model(u) for u in uids)
+            if self.sut_on:
+                self._do(step, "shelf.update", d.update, {key: [self.node(u) for u in uids]})
+        elif kind == "setdefault":
+            if key not in md:
+                md[key] = MList(self.model(u) for u in uids)
+            if self.sut_on:
+                self._do(step, "shelf.setdefault", d.setdefault, key,
+                         [self.node(u) for u in uids])
+        elif kind == "delitem":
+            if key not in md:
+                return []
+            del md[key]
+            if self.sut_on:
+                self._do(step, "del shelf[%r]" % key, d.__delitem__, key)
+        elif kind == "pop":
+            md.pop(key, None)
+            if self.sut_on:
+                self._do(step, "shelf.pop", d.pop, key, None)
+        elif kind == "clear":
+            md.clear()
+            if self.sut_on:
+                self._do(step, "shelf.clear", d.clear)
+        else:
+            raise HarnessError(kind)
+        after = dict(md)
+        changed = (sorted(before) != sorted(after)
+                   or any(before[a] is not after[a] for a in before))
+        return [Change("dict", mobj=m, obj=n, name="shelf", mcont=md, cont=d,
+                       changed=changed, before=before, after=after, ckind="dict")]
+
     def op_gc(self, op, step):
         if self.sut_on:
             gc.collect()
@@ -1187,6 +1276,9 @@ class World:
                 if name == "grid":
                     ok = len(sv) == len(mv) and all(
                         [x.uid for x in a] == [y.uid for y in b] for a, b in zip(sv, mv))
+                elif name == "shelf":
+                    ok = ({a: [x.uid for x in b] for a, b in sv.items()}
+                          == {a: [x.uid for x in b] for a, b in mv.items()})
                 elif ck == "list":
                     ok = [x.uid for x in sv] == [y.uid for y in mv]
                 elif ck == "dict":
@@ -1287,6 +1379,8 @@ def gen_graph_op(r, npool, links_only=False):
     ill-formed for the state they meet are skipped by the interpreter."""
     o = r.randrange(npool + 1)
     x = r.random()
+    if not links_only and r.random() < 0.08:
+        return gen_shelf_op(r, npool, o)
     if x < 0.22:
         return {"k": "set_child", "o": o, "v": gen_ref(r, npool, 0.2, 0.12)}
     if x < 0.27:
@@ -1321,4 +1415,22 @@ def gen_graph_op(r, npool, links_only=False):
         how = r.choice(["append", "append", "pop", "clear"])
         return {"k": "grid_outer", "o": o, "how": how, "i": r.randrange(3),
                 "row_vs": [gen_ref(r, npool) for _ in range(r.randint(0, 2))]}
-    return {"k": "read", "o": o, "name": r.choice(["children", "table", "group", "grid"])}
+    return {"k": "read", "o": o, "name": r.choice(["children", "table", "group", "grid",
+                                                   "shelf"])}
+
+
+def gen_shelf_op(r, npool, o):
+    """Ops on ``shelf`` (a Dict of Lists of nodes)."""
+    y = r.random()
+    if y < 0.2:
+        return {"k": "set_shelf", "o": o,
+                "pairs": [[r.choice(["a", "b", "c"]),
+                           [gen_ref(r, npool) for _ in range(r.randint(0, 2))]]
+                          for _ in range(r.randint(0, 2))]}
+    if y < 0.6:
+        return {"k": "shelf_outer", "o": o,
+                "how": r.choice(["setitem", "setitem", "setitem", "update", "setdefault",
+                                 "delitem", "pop", "clear"]),
+                "key": r.choice(["a", "b", "c"]),
+                "row_vs": [gen_ref(r, npool) for _ in range(r.randint(0, 2))]}
+    return {"k": "shelf_inner", "o": o, "row": r.randrange(3), "op": gen_list_inner(r, npool)}
